@@ -134,6 +134,8 @@ type Prop struct {
 	Required []string
 	Level    string // exploration | fault_enumeration
 	Build    string // worker build kind: "" (= race), "checkptr" (plain build with -d=checkptr), "asan"
+	// Asan, when set, is the number of leading cases the driver repeats with an AddressSanitizer build.
+	Asan func(tier string) int
 }
 
 var registry = map[string]*Prop{}
@@ -202,8 +204,12 @@ func runWorker(t *testing.T) {
 			ids = append(ids, id)
 		}
 		sort.Strings(ids)
+		asan := 0
+		if p.Asan != nil {
+			asan = p.Asan(tier)
+		}
 		out, _ := json.Marshal(map[string]any{"cases": p.Cases(tier), "batch": p.Batch(tier), "rule": p.Rule,
-			"required": p.Required, "level": p.Level, "props": ids, "build": p.Build})
+			"required": p.Required, "level": p.Level, "props": ids, "build": p.Build, "asan_cases": asan})
 		fmt.Printf("PLAN %s\n", out)
 		return
 	}
